@@ -141,6 +141,51 @@ pub proof fn lemma_mark_optional_map<T>(kids: Seq<Necessity<Element<T>>>, name: 
         }
     }
 }
+/// removal, read as a map operation: the named entry disappears, every other entry is untouched (order not constrained)
+pub open spec fn removed_map<T>(old: Seq<Necessity<Element<T>>>, new: Seq<Necessity<Element<T>>>, name: T) -> bool {
+    forall|n: T| #[trigger] entry(new, n) == (if n == name { None } else { entry(old, n) })
+}
+pub proof fn lemma_remove_map<T>(kids: Seq<Necessity<Element<T>>>, name: T)
+    requires uniq_kids(kids),
+    ensures removed_map(kids, apply_op(kids, TreeOp::Remove(name)), name),
+{
+    lemma_kid_idx(kids, name);
+    let i = kid_idx(kids, name);
+    let new = apply_op(kids, TreeOp::Remove(name));
+    if i < kids.len() {
+        let r = kids.remove(i);
+        assert(forall|j: int| 0 <= j < r.len() ==> (#[trigger] r[j]) == (if j < i { kids[j] } else { kids[j + 1] }));
+        assert(new == r);
+        assert forall|n: T| #[trigger] entry(new, n) == (if n == name { None } else { entry(kids, n) }) by {
+            lemma_kid_idx(kids, n);
+            let j = kid_idx(kids, n);
+            if n == name {
+                assert forall|t: int| 0 <= t < new.len() implies (#[trigger] new[t]).val().name != name by {
+                    let kt = if t < i { t } else { t + 1 };
+                    assert(new[t] == kids[kt]);
+                    if kt < i { assert(kids[kt].val().name != kids[i].val().name); } else { assert(kids[i].val().name != kids[kt].val().name); }
+                }
+                lemma_kid_idx_is(new, name, new.len() as int);
+            } else if j >= kids.len() {
+                assert forall|t: int| 0 <= t < new.len() implies (#[trigger] new[t]).val().name != n by {
+                    let kt = if t < i { t } else { t + 1 }; assert(new[t] == kids[kt]);
+                }
+                lemma_kid_idx_is(new, n, new.len() as int);
+            } else {
+                assert(j != i);
+                let nj = if j < i { j } else { j - 1 };
+                assert(new[nj] == kids[j]);
+                assert forall|t: int| 0 <= t < nj implies (#[trigger] new[t]).val().name != n by {
+                    let kt = if t < i { t } else { t + 1 };
+                    assert(new[t] == kids[kt]);
+                }
+                lemma_kid_idx_is(new, n, nj);
+            }
+        }
+    } else {
+        assert(new == kids);
+    }
+}
 /// THEOREM (C16, tree half): child names stay unique under EVERY finite sequence of the public operations
 pub proof fn theorem_c16_all_sequences<T>(kids: Seq<Necessity<Element<T>>>, ops: Seq<TreeOp<T>>)
     requires uniq_kids(kids),
